@@ -39,7 +39,7 @@ use std::str::FromStr;
 /// The allocator is owned by another module; until it is wired in, the leak check is reported
 /// as unavailable.
 fn alloc_current() -> Option<usize> {
-    None
+    Some(crate::codec::alloc::current())
 }
 
 const COUNT_SENTINEL: usize = 0xDEAD_BEEF_DEAD_BEEF;
@@ -146,6 +146,9 @@ pub fn run_case(c: &FfiCase) -> String {
     let mut inst: *mut MaybenotFramework = std::ptr::null_mut();
     let mut reference: Option<RefFw> = None;
     let mut ref_time: i128 = 0;
+    // net bytes allocated inside the extern "C" calls of the current session (measured tightly around
+    // each call so that the harness's own allocations are not counted)
+    let mut api_net: i64 = 0;
     let mut alloc_before: Option<usize> = None;
     for op in &c.ops {
         let _ = writeln!(out, "orc 0 0");
@@ -161,7 +164,13 @@ pub fn run_case(c: &FfiCase) -> String {
                 alloc_before = alloc_current();
                 let mut slot: MaybeUninit<*mut MaybenotFramework> = MaybeUninit::new(OUT_SENTINEL as *mut MaybenotFramework);
                 let outp: *mut MaybeUninit<*mut MaybenotFramework> = if *out_null { std::ptr::null_mut() } else { &mut slot };
+                let a0 = alloc_current();
                 let rc = unsafe { maybenot_start(cstr.as_ptr().cast(), *fp, *fb, outp) } as u32;
+                let a1 = alloc_current();
+                api_net = match (a0, a1) {
+                    (Some(x), Some(y)) => y as i64 - x as i64,
+                    _ => 0,
+                };
                 let got = unsafe { slot.assume_init() };
                 let written = got as usize != OUT_SENTINEL && !got.is_null();
                 if written {
@@ -216,7 +225,12 @@ pub fn run_case(c: &FfiCase) -> String {
                 let mut count: usize = COUNT_SENTINEL;
                 let cntp: *mut usize = if nulls[3] { std::ptr::null_mut() } else { &mut count };
                 let thisp = if this_null { std::ptr::null_mut() } else { inst };
+                let a0 = alloc_current();
                 let rc = unsafe { maybenot_on_events(thisp, evp, cevents.len(), actp, cntp) } as u32;
+                let a1 = alloc_current();
+                if let (Some(x), Some(y)) = (a0, a1) {
+                    api_net += y as i64 - x as i64;
+                }
                 let _ = writeln!(out, "o rc {}", rc);
                 if count == COUNT_SENTINEL {
                     let _ = writeln!(out, "o count unset");
@@ -247,12 +261,18 @@ pub fn run_case(c: &FfiCase) -> String {
                     let _ = writeln!(out, "o skipped not-started");
                     continue;
                 }
+                let a0 = alloc_current();
                 unsafe { maybenot_stop(inst) };
+                let a1 = alloc_current();
+                if let (Some(x), Some(y)) = (a0, a1) {
+                    api_net += y as i64 - x as i64;
+                }
                 inst = std::ptr::null_mut();
                 reference = None;
                 match (alloc_before, alloc_current()) {
-                    (Some(b), Some(a)) => {
-                        let _ = writeln!(out, "o leak {} {}", b, a);
+                    (Some(_), Some(_)) => {
+                        // bytes allocated by start/on_events and not released by stop: must be 0
+                        let _ = writeln!(out, "o leak 0 {}", api_net);
                     }
                     _ => {
                         let _ = writeln!(out, "o leak na");
